@@ -255,10 +255,10 @@ func body(c *explore.Chooser) *explore.Case {
 	var devs []string
 	for _, s := range allSites {
 		nv := len(s.variants)
-		if len(devs) >= 2 && nv > 4 {
-			// thorough (bound 3): a third non-default site ranges over its first three alternatives only, which
+		if len(devs) >= 2 && nv > 3 {
+			// thorough (bound 3): a third non-default site ranges over its first two alternatives only, which
 			// keeps the triple interactions a complete space instead of a time-capped sample of ~10^8 configs
-			nv = 4
+			nv = 3
 		}
 		k := c.Choose(nv, s.name)
 		if k != 0 {
@@ -334,7 +334,7 @@ func body(c *explore.Chooser) *explore.Case {
 func main() {
 	explore.Main(&explore.Config{
 		Property: "C18", Level: "exploration",
-		Rule:        fmt.Sprintf("config assembled from %d option sites (parser, owners, ci, checks, check{} settings, discovery{filepath{template{}}} rendered against a directory whose file names carry metacharacters, rule{match,ignore,enable/disable/locked,aggregate,annotation,label,for,keep_firing_for,reject,name,link,range_query,report}) each with its catalogue of value classes (valid, invalid regexp, templated with every variable, unterminated template, template expanding to an invalid regexp, empty, invalid/negative/huge durations, unknown severities/names/states); all configs with <=2 non-default sites (thorough: also every config with 3 non-default sites whose third site takes one of its first three alternatives) loaded by config.Load; accepted configs are applied (lint and ci command) to a rule universe whose names, labels and annotations carry regexp and template metacharacters. Violation = accepted and panics", len(allSites)),
+		Rule:        fmt.Sprintf("config assembled from %d option sites (parser, owners, ci, checks, check{} settings, discovery{filepath{template{}}} rendered against a directory whose file names carry metacharacters, rule{match,ignore,enable/disable/locked,aggregate,annotation,label,for,keep_firing_for,reject,name,link,range_query,report}) each with its catalogue of value classes (valid, invalid regexp, templated with every variable, unterminated template, template expanding to an invalid regexp, empty, invalid/negative/huge durations, unknown severities/names/states); all configs with <=2 non-default sites (thorough: also every config with 3 non-default sites whose third site takes one of its first two alternatives) loaded by config.Load; accepted configs are applied (lint and ci command) to a rule universe whose names, labels and annotations carry regexp and template metacharacters. Violation = accepted and panics", len(allSites)),
 		Assumptions: []string{"checks run through the sequential seam: a panic in Check() kills the shipped command because scanWorker does not recover", "online checks (cost, alerts, prometheus{}) are outside this space"},
 		Spaces: []*explore.Space{{Name: "configs", Body: body, Setup: setup, Bound: func(t string) int {
 			if t == "thorough" {
@@ -344,7 +344,7 @@ func main() {
 		}}},
 		BudgetS: func(t string) int {
 			if t == "thorough" {
-				return 1800
+				return 3000
 			}
 			return 300
 		},
